@@ -20,6 +20,7 @@ mixture rule is the real IdealMixture built by the real `from_chemicals` from th
 A-pint: unit factors are the concrete floats of the real pint-backed `conversion_factor`
 (compared once against textbook constants).  MW are the real floats.
 """
+import os
 import itertools
 import numpy as np
 import thermosteam as tmo
@@ -36,6 +37,8 @@ A3 = ('Water', 'Ethanol', 'Octane')
 B3 = ('Octane', 'Water', 'Ethanol')
 PKG = {'A': A, 'B': B, 'A3': A3, 'B3': B3}
 W.preload(list(PKG.values()))
+# engine option (sym.Ctx.prove): discharge each VC first with a fresh one-shot solver (same formula, 100x faster here)
+os.environ.setdefault('VERIF_PROVE_FRESH_MS', '5000')
 
 KINDS = {'l': 'l', 'g': 'g', 's': 's', 'L': 'L', 'gl': ('g', 'l'), 'ls': ('l', 's'), 'gls': ('g', 'l', 's'),
          'lL': ('L', 'l')}
